@@ -184,10 +184,14 @@ def run(rep, ctx):
                 probs.append("link type %s" % ae[0].get("callee"))
             sel = [c for c in walk(ae[0]) if c["k"] == "CXXMemberCallExpr" and c.get("callee", "").endswith("ValueNode::Select")]
             add = [c for c in walk(ae[0]) if c["k"] == "CXXMemberCallExpr" and c.get("callee", "").endswith("ValueNode::Add")]
-            if len(sel) != 1 or "GetValueNode()" not in render(sel[0]) or render(call_args(sel[0])[0]) != "con_index":
+            ecs_ = calls(f, name="ExportConStatus")
+            posd_ = strip(call_args(ecs_[0])[0]).get("declId") if len(ecs_) == 1 and call_args(ecs_[0]) else None
+            # the source position is the container's position: the variable that is also exported as the status record's index
+            if len(sel) != 1 or "GetValueNode()" not in render(sel[0]) or not (render(call_args(sel[0])[0]) == "con_index" or
+                                                                              (posd_ is not None and strip(call_args(sel[0])[0]).get("declId") == posd_)):
                 probs.append("source is `%s`, expected this keeper's node Select(con_index)" % (render(sel[0])[:60] if sel else "?"))
             if len(add) != 1 or "GetTargetNodes().GetConValues()" not in render(add[0]).replace("GetConverter().GetValuePresolver().", "") or \
-                    "con_group" not in render(add[0]):
+                    not ("con_group" in render(add[0]) or "GetConstraintGroup(" in render(add[0])):
                 probs.append("target is `%s`, expected the target constraint node of the keeper's group .Add()" % (render(add[0])[:80] if add else "?"))
             if sel and add:
                 pair = [x for x in walk(ae[0]) if x["k"] in ("CXXConstructExpr",) and x.get("callee", "").startswith("std::pair")]
